@@ -410,16 +410,27 @@ fn sketches(ctx: &Ctx, which: usize, rep: &mut Report) {
         }
         _ => {
             for &width in &[1usize, 10, 100, 1000] {
-                for kind in 0..2 {
-                    let what = format!("lossy(width={},{})", width, if kind == 0 { "all-distinct" } else { "zipf" });
+                for kind in 0..3 {
+                    let what = format!("lossy(width={},{})", width, ["all-distinct", "zipf", "known-element-closes-every-window"][kind]);
                     rep.config(&what);
-                    let wit = json!({"width": width, "stream": if kind == 0 { "all distinct" } else { "zipf" }});
+                    let stream_name = ["all distinct", "zipf", "known element closes every window"][kind];
+                    let wit = json!({"width": width, "stream": stream_name});
                     let mut base = alloc::live();
                     let mut lc: LossyCounter<u64> = LossyCounter::with_width(width);
                     let mut done = 0usize;
                     for &n in &lens {
                         while done < n {
-                            let x = if kind == 0 { done as u64 } else { ((1.0 - r.f64()).powf(-1.0 / 1.1)) as u64 };
+                            let x = match kind {
+                                0 => done as u64,
+                                1 => ((1.0 - r.f64()).powf(-1.0 / 1.1)) as u64,
+                                _ => {
+                                    if (done + 1) % width == 0 || done % width == 0 {
+                                        u64::MAX
+                                    } else {
+                                        done as u64
+                                    }
+                                }
+                            };
                             lc.add(x);
                             done += 1;
                         }
